@@ -745,7 +745,10 @@ struct Engine : public vf::Engine {
                       } }
                     break;
                 }
-                if (oomRealloc) fail(W, "C15", "designated_failure", sg2("op", on, "what", "reallocation succeeded while out of memory is simulated"), sfmt("op %zu", oi));
+                // A block came back. While out of memory is simulated that is fine for a reallocation that needed no memory (the block stays where it is); after an
+                // injected platform failure it is fine if the detector asked again and was served (the request could be satisfied after all). What came back is
+                // checked like any other block below.
+                if (oomRealloc) probe("realloc_served_while_out_of_memory"); else if (HEAP.firedNull && !tooBig) probe("realloc_served_after_a_platform_failure");
                 else if (expectNull && !tooBig) fail(W, "C05", "injected_failure", sg2("op", on, "what", "platform realloc failed but a block was returned"), sfmt("op %zu", oi));
                 MBlock old = S;
                 S.p = np; S.size = size; S.number = W.seq++; S.file = file; S.line = line; S.period = W.period; S.stage = W.stage; S.allocator = fa; S.allocName = fa->alloc_name(); S.guardDirty = false; S.family = 2;
